@@ -614,6 +614,44 @@ func runC07(c *core.Ctx) {
 			}
 		}
 
+		// R9b: the daily totals shown under --totals-only, and the food rows shown under --no-totals, are the ones
+		// of the plain register, in every renderer (so R1 holds under the presentation flags as well)
+		{
+			rr := regRenderers[r.Intn(len(regRenderers))]
+			flag := []string{"--totals-only", "--no-totals"}[r.Intn(2)]
+			res, args := runCmd(true, append(append([]string{}, rr.args...), flag)...)
+			if failed {
+				return
+			}
+			days, err := rr.parse(res.Out)
+			part := func(d obs.RegDay) string {
+				if flag == "--totals-only" {
+					d.Foods = nil
+				} else {
+					d.Totals = nil
+				}
+				return regDayString(d)
+			}
+			bad := ""
+			if err != nil {
+				bad = "unparsable: " + err.Error()
+			} else if len(days) != len(regDays) {
+				bad = fmt.Sprintf("%d days vs %d", len(days), len(regDays))
+			} else {
+				for k := range days {
+					if s1, s2 := regDayString(days[k]), part(regDays[k]); s1 != s2 {
+						bad = fmt.Sprintf("day %d differs:\n%s\nvs the plain register:\n%s", k, s1, s2)
+						break
+					}
+				}
+			}
+			if bad != "" {
+				viol("R9b "+rr.name+" "+flag+" vs plain reg", bad, args, res, regArgs, regRes)
+			} else if len(days) > 0 {
+				ok("R9b")
+			}
+		}
+
 		// R10: reg -s X -g rows == bal -s X amounts of foods defined in the book
 		if err == nil && bs.HasGrand {
 			gRes, gArgs := runCmd(true, "reg", "-s", X, "-g")
